@@ -869,21 +869,25 @@ def s_world(sc: Dict[str, Any]) -> Tuple[Dict[str, Any], Dict[str, Any], Callabl
     owner = sc["owner"]
     L = s_hierarchy(extended=owner in EXT_OWNERS)
     tgt = OTHER_TARGETS[sc["as"]] if sc.get("as") else kind.target
+    name = sc.get("name", "N")  # also python keywords and names starting with a digit (both legal ODX short names)
     for loc in sc["defs"]:
-        add(L[loc], tgt(loc, f"{loc}.N", "N@" + loc, "N"))
+        add(L[loc], tgt(loc, f"{loc}.N", "N@" + loc, name))
+    for loc in sc.get("also_defs", []):
+        # a second object of the same short name but of ANOTHER kind
+        add(L[loc], OTHER_TARGETS[sc["also"]](loc, f"{loc}.Nb", "Nb@" + loc, name))
     if sc.get("dup"):
-        d = tgt(owner, f"{owner}.N2", "N2@" + owner, "N")
+        d = tgt(owner, f"{owner}.N2", "N2@" + owner, name)
         # only the object named N itself is duplicated, not its auxiliary objects
         for key, objs in d.items():
-            L[owner].setdefault(key, []).extend(o for o in objs if o.get("sn") == "N")
+            L[owner].setdefault(key, []).extend(o for o in objs if o.get("sn") == name)
     for l in sc.get("ni", []):
         for pr in L[l]["parents"]:
             pr["ni"] = {NI_OF.get(snkind, "dops") if not sc.get("as") else
-                        ("tables" if sc["as"] == "table" else "comms" if sc["as"] == "service" else "dops"): ["N"]}
+                        ("tables" if sc["as"] == "table" else "comms" if sc["as"] == "service" else "dops"): [name]}
     if sc.get("import"):
         L[owner]["imports"] = [copy.deepcopy(IMPORT_REF)]
-    add(L[owner], kind.source(owner, {"snref": "N"}))
-    probe = {"mode": "sn", "owner": owner, "kind": snkind, "name": "N"}
+    add(L[owner], kind.source(owner, {"snref": name}))
+    probe = {"mode": "sn", "owner": owner, "kind": snkind, "name": name}
 
     def obs(db: Any) -> Any:
         return kind.observe(db.diag_layers[owner])
@@ -898,17 +902,18 @@ def s2_world(sc: Dict[str, Any]) -> Tuple[Dict[str, Any], Dict[str, Any], Callab
     owner = sc.get("owner", "LR")
     world_extra: Dict[str, Any] = {}
     if k == "table-struct/TABLE-KEY-SNREF":
+        K = sc.get("name", "K")
         add(L[owner], T_row(owner, f"{owner}.row", f"{owner}/row", "row"))
 
         def tk(sn: str, n: int) -> Dict[str, Any]:
             return {"t": "TABLE-KEY", "sn": sn, "id": f"{owner}.tk{n}", "m": f"key{n}", "table": lref(owner, "t_tab")}
         sit = sc["situation"]
-        ts = {"t": "TABLE-STRUCT", "sn": "p", "m": "p", "key": {"snref": "K"}}
-        other = [CC, tk("K", 9)]
-        plist = {"unique": [CC, tk("K", 1), ts], "missing": [CC, tk("Z", 1), ts], "ambiguous": [CC, tk("K", 1), tk("K", 2), ts],
-                 "wrong-type": [CC, {"t": "VALUE", "sn": "K", "m": "value", "dop": lref(owner, "t_kd")}, ts],
-                 "only-in-other-list": [CC, ts], "key-after-struct": [CC, ts, tk("K", 1)],
-                 "same-name-in-other-list": [CC, tk("K", 1), ts]}[sit]
+        ts = {"t": "TABLE-STRUCT", "sn": "p", "m": "p", "key": {"snref": K}}
+        other = [CC, tk(K, 9)]
+        plist = {"unique": [CC, tk(K, 1), ts], "missing": [CC, tk("Z", 1), ts], "ambiguous": [CC, tk(K, 1), tk(K, 2), ts],
+                 "wrong-type": [CC, {"t": "VALUE", "sn": K, "m": "value", "dop": lref(owner, "t_kd")}, ts],
+                 "only-in-other-list": [CC, ts], "key-after-struct": [CC, ts, tk(K, 1)],
+                 "same-name-in-other-list": [CC, tk(K, 1), ts]}[sit]
         where = sc["where"]
         if where == "request":
             add(L[owner], {"requests": [{"sn": "s_RQ", "id": f"{owner}.s_RQ", "m": "s_RQ", "params": plist},
@@ -928,43 +933,45 @@ def s2_world(sc: Dict[str, Any]) -> Tuple[Dict[str, Any], Dict[str, Any], Callab
 
             def obs(db: Any) -> Any:
                 return raw_ddds(db.diag_layers[owner]).structures["s_ST"].parameters["p"].table_key
-        probe = {"mode": "sn", "owner": owner, "kind": "tablekey", "name": "K", "params": plist if where != "structure" else plist[1:]}
+        probe = {"mode": "sn", "owner": owner, "kind": "tablekey", "name": K, "params": plist if where != "structure" else plist[1:]}
         return s_assemble(L), probe, obs
     if k == "table-key/TABLE-ROW-SNREF":
         # tables named TB in the owner and (optionally) in other layers; rows per situation
         sit = sc["situation"]
+        ROW = sc.get("name", "ROW")
 
         def table(Lname: str, rows: List[str]) -> Dict[str, Any]:
             return {"ddds": [aux_dop(Lname, "t_kd"),
                              {"k": "table", "sn": "TB", "id": f"{Lname}.TB", "m": f"TB@{Lname}", "key_dop": lref(Lname, "t_kd"),
                               "rows": [{"sn": r, "id": f"{Lname}.TB.{i}", "m": f"row{i}:{r}@{Lname}", "key": i, "dop": lref(Lname, "t_kd")}
                                        for i, r in enumerate(rows)]}]}
-        rows = {"unique": ["A", "ROW", "B"], "missing": ["A", "B"], "ambiguous": ["ROW", "A", "ROW"]}[sit]
+        rows = {"unique": ["A", ROW, "B"], "missing": ["A", "B"], "ambiguous": [ROW, "A", ROW]}[sit]
         for loc in sc["tables"]:
-            add(L[loc], table(loc, rows if loc == sc["tables"][0] else ["ROW", "C"]))
+            add(L[loc], table(loc, rows if loc == sc["tables"][0] else [ROW, "C"]))
         if sc.get("other_table_has_row"):
             add(L[owner], {"ddds": [{"k": "table", "sn": "TB2", "id": f"{owner}.TB2", "m": f"TB2@{owner}", "key_dop": lref(sc["tables"][0], "t_kd")
                                      if sc["tables"][0] == owner else None,
-                                     "rows": [{"sn": "ROW", "id": f"{owner}.TB2.0", "m": "row:ROW@TB2", "key": 0, "struct": None}]}]})
+                                     "rows": [{"sn": ROW, "id": f"{owner}.TB2.0", "m": "row:ROW@TB2", "key": 0, "struct": None}]}]})
         tref = {"snref": "TB"} if sc["table_by"] == "snref" else {"ref": f"{sc['tables'][0]}.TB", "doc": (sc["tables"][0], "LAYER")}
-        add(L[owner], S_rq(owner, [{"t": "TABLE-KEY", "sn": "p", "id": f"{owner}.s_tk", "m": "p", "table": tref, "row": {"snref": "ROW"}}]))
-        probe = {"mode": "sn", "owner": owner, "kind": "tablerow", "name": "ROW", "table": tref}
+        add(L[owner], S_rq(owner, [{"t": "TABLE-KEY", "sn": "p", "id": f"{owner}.s_tk", "m": "p", "table": tref, "row": {"snref": ROW}}]))
+        probe = {"mode": "sn", "owner": owner, "kind": "tablerow", "name": ROW, "table": tref}
 
         def obs(db: Any) -> Any:
             return rq_param(db.diag_layers[owner]).table_row
         return s_assemble(L), probe, obs
     if k == "protocol/PROT-STACK-SNREF":
-        stacks = {"unique": ["A", "PS"], "missing": ["A"], "ambiguous": ["PS", "PS"]}[sc["situation"]]
+        PS = sc.get("name", "PS")
+        stacks = {"unique": ["A", PS], "missing": ["A"], "ambiguous": [PS, PS]}[sc["situation"]]
         spec = {"sn": "SPEC0", "id": "SID.SPEC0", "m": "spec:SPEC0",
                 "stacks": [{"sn": s, "id": f"SPEC0.ps{i}", "m": f"stack{i}:{s}", "subsets": []} for i, s in enumerate(stacks)]}
-        spec2 = {"sn": "SPEC9", "id": "SID.SPEC9", "m": "spec:SPEC9", "stacks": [{"sn": "PS", "id": "SPEC9.ps", "m": "stack:PS@SPEC9", "subsets": []}]}
+        spec2 = {"sn": "SPEC9", "id": "SID.SPEC9", "m": "spec:SPEC9", "stacks": [{"sn": PS, "id": "SPEC9.ps", "m": "stack:PS@SPEC9", "subsets": []}]}
         PR = new_layer("PR", "PROTOCOL")
         PR["comparam_spec"] = copy.deepcopy(SPEC_REF)
-        PR["prot_stack"] = "PS"
+        PR["prot_stack"] = PS
         world = s_assemble(L)
         world["containers"][0]["layers"].append(PR)
         world["specs"] = [spec2, spec] if sc.get("reverse") else [spec, spec2]
-        probe = {"mode": "sn", "owner": "PR", "kind": "protstack", "name": "PS"}
+        probe = {"mode": "sn", "owner": "PR", "kind": "protstack", "name": PS}
 
         def obs(db: Any) -> Any:
             return db.diag_layers["PR"].prot_stack
@@ -1015,6 +1022,41 @@ def s_scenarios(quick: bool) -> List[Dict[str, Any]]:
                     out.append({"fam": "S", "kind": kind, "owner": owner, "defs": defs, "ni": [], "import": False, "as": other})
             for defs in ([owner], [owner, parent]):
                 out.append({"fam": "S", "kind": kind, "owner": owner, "defs": defs, "ni": [], "import": False, "dup": True})
+    # the name is carried by two objects of DIFFERENT kinds (local/local, local/inherited, inherited/inherited): a DOP-SNREF sees
+    # both when both are DOP-BASE objects and must fail; every other SNREF only sees its own collection
+    main_kind = {"dop": "dop", "table": "table", "struct": "struct", "rowdop": "dop", "basicstruct": "struct", "envdesc": "envdesc",
+                 "diagcomm": "service"}
+    for kind, (_, snkind) in S_KINDS.items():
+        if quick and kind in QUICK_SKIPPED_S_KINDS:
+            continue
+        full = snkind == "dop"
+        for owner in ("LR", "LP"):
+            chain = {"LR": ["LR", "LP", "LG"], "LP": ["LP", "LG"]}[owner]
+            for also in OTHER_TARGETS:
+                if also == main_kind[snkind]:
+                    continue
+                if not full and also not in ("dop", "struct", "table"):
+                    continue
+                for d1 in chain:
+                    for d2 in chain + (["LR"] if owner == "LP" and full else []):  # LR: ambiguous only in the child's view
+                        if not full and (d1, d2) not in ((chain[0], chain[0]), (chain[0], chain[1]), (chain[1], chain[0])):
+                            continue
+                        out.append({"fam": "S", "kind": kind, "owner": owner, "defs": [d1], "ni": [], "import": False, "also": also,
+                                    "also_defs": [d2]})
+        # short names which are python keywords or start with a digit
+        for owner in ("LR", "LP"):
+            parent = {"LR": "LP", "LP": "LG"}[owner]
+            for name in ("class", "1st"):
+                for defs in ([owner], [parent], [owner, parent]):
+                    out.append({"fam": "S", "kind": kind, "owner": owner, "defs": defs, "ni": [], "import": False, "name": name})
+    for name in ("class", "1st"):
+        for owner in ("LR", "LP"):
+            for where in ("request", "response", "structure"):
+                out.append({"fam": "S2", "kind": "table-struct/TABLE-KEY-SNREF", "owner": owner, "where": where, "situation": "unique", "name": name})
+            for table_by in ("idref", "snref"):
+                out.append({"fam": "S2", "kind": "table-key/TABLE-ROW-SNREF", "owner": owner, "situation": "unique", "table_by": table_by,
+                            "tables": [owner], "name": name})
+        out.append({"fam": "S2", "kind": "protocol/PROT-STACK-SNREF", "situation": "unique", "reverse": False, "name": name})
     # SNREFs owned by an ECU-SHARED-DATA (LH) / PROTOCOL (PA) ancestor: retargeting to a descendant must rebind them too
     ext_kinds = (["param/DOP-SNREF", "table-key/TABLE-SNREF", "mux-case/STRUCTURE-SNREF", "static-field/BASIC-STRUCTURE-SNREF",
                   "table-diag-comm-connector/DIAG-COMM-SNREF"] if quick else list(S_KINDS))
@@ -1133,6 +1175,10 @@ def s_key(sc: Dict[str, Any], phase: str, mode: str, expected: Tuple[str, str], 
         sit += "/names-a-" + sc["as"]
     if sc.get("dup"):
         sit += "/duplicate-name"
+    if sc.get("also"):
+        sit += "/and-a-" + sc["also"]
+    if sc.get("name"):
+        sit += "/keyword-name" if sc["name"].isidentifier() else "/digit-first-name"
     ph = "" if phase == "load" else "/after-" + phase
     return f"C10/snref:{sc['kind']}{sit}{ph}/{mode}/expected={exp}/bound={rel_class(owner, got)}"
 
@@ -1157,7 +1203,7 @@ def _s_unit(scs: List[Dict[str, Any]]) -> Part:
             if observed.startswith("raised:"):
                 part.add("exception_types", observed[7:])
             part.add("nontrivial", digest((sc["kind"], sc.get("owner"), sc.get("defs"), sc.get("ni"), sc.get("situation"), sc.get("as"),
-                                           phase, expected[0], observed.split(":")[0])))
+                                           sc.get("also"), sc.get("also_defs"), sc.get("name"), phase, expected[0], observed.split(":")[0])))
             if fail is not None:
                 part.violation(s_key(sc, phase, fail[0], expected, observed_marker(observed)), {"family": "S", "sc": sc},
                                f"{sc['kind']} [{phase}]: {fail[1]} [{sc}]")
